@@ -42,7 +42,7 @@ def setup(ctx):
 
 
 def gen_world(rng):
-    parts = [{"cls": rng.choice(["Part", "BigPart", "MarkedPart"]), "name": rng.choice("ab"), "size": rng.randint(0, 2), "grade": rng.randint(0, 1)}
+    parts = [{"cls": rng.choice(["Part", "BigPart", "MarkedPart", "LoosePart"]), "name": rng.choice("ab"), "size": rng.randint(0, 2), "grade": rng.randint(0, 1)}
              for _ in range(rng.randint(2, 5))]
     boxes = []
     shared = [rng.randrange(len(parts)) for _ in range(2)]
@@ -176,6 +176,8 @@ def witnesses():
              "shelves": []}
     return {
         "match-any-collapses-equal-collections": {"world": world, "pattern": {"type": "Box", "attrs": {"parts": ["any", [0]]}}, "root_selected": False},
+        "match-all-over-unhashable-elements": {"world": dict(world, parts=[{"cls": "LoosePart", "name": "a", "size": 0}, {"cls": "LoosePart", "name": "b", "size": 1}]),
+                                               "pattern": {"type": "Box", "attrs": {"parts": ["all", [1, 0]]}}, "root_selected": False},
         "literal-on-builtin-collection-is-equality": {"world": world, "pattern": {"type": "Box", "attrs": {"tags": ["lit", "x"]}}, "root_selected": False},
         "nested-match-mixin-type-not-enforced": {"world": dict(world, parts=[{"cls": "MarkedPart", "name": "a", "size": 0}, {"cls": "Part", "name": "a", "size": 1}]),
                                                  "pattern": {"type": "Box", "attrs": {"lid": ["match", {"type": "Marked", "attrs": {"name": ["lit", "a"]}}]}}, "root_selected": False},
